@@ -43,6 +43,13 @@ type Prop struct {
 	Custom func(env *Env) *Result
 	// Post, when set, runs in the parent after the E1 phases and may add to the result.
 	Post func(env *Env, r *Result)
+	// Pre, when set, runs in the parent before the workers start.
+	Pre func(env *Env) error
+	// Aux, when set, serves auxiliary child-process tasks (check -aux <prop> -auxargs <args>).
+	Aux func(args string)
+	// ContextReplay: a violation that does not reproduce alone is re-run together
+	// with every case that preceded it in its worker (process-global state).
+	ContextReplay bool
 	// Replay, when set, replays a recorded violation of a Custom engine; returns the exit code.
 	Replay func(env *Env, v *Violation) int
 	// Budget returns the wall-clock budget in seconds for a tier (nil: defaults).
@@ -88,6 +95,11 @@ type Violation struct {
 	Choices []int  `json:"choices"`
 	Detail  Detail `json:"detail"`
 	Count   int    `json:"count,omitempty"`
+	// where the case ran (needed to re-run the same process history)
+	Shard   int  `json:"shard"`
+	NShards int  `json:"nshards"`
+	Seed    int  `json:"seed"`
+	Context bool `json:"context_dependent,omitempty"` // reproduces only after the cases that preceded it in its worker
 }
 
 // PhaseStat is the coverage of one (phase,size).
@@ -215,7 +227,8 @@ func (w *worker) violation(x *Ctx, kind, key string, d Detail) {
 		return s
 	}
 	d.Program, d.Input, d.Expected, d.Observed = trunc(d.Program), trunc(d.Input), trunc(d.Expected), trunc(d.Observed)
-	v := Violation{Kind: kind, Key: key, Phase: x.phase, PhaseIx: x.phaseIx, Size: x.size, Choices: x.c.Choices(), Detail: d}
+	v := Violation{Kind: kind, Key: key, Phase: x.phase, PhaseIx: x.phaseIx, Size: x.size, Choices: x.c.Choices(), Detail: d,
+		Shard: w.idx, NShards: w.n, Seed: w.seed}
 	w.emit(map[string]interface{}{"t": "viol", "v": v})
 }
 
@@ -411,7 +424,7 @@ func (w *worker) runOne(ph *Phase, x *Ctx, c *Chooser) (leaf bool) {
 }
 
 // WorkerMain runs in a worker subprocess.
-func WorkerMain(propID, tier string, idx, n, seed int, deadlineUnix int64, after, replay, regionPath string) {
+func WorkerMain(propID, tier string, idx, n, seed int, deadlineUnix int64, after, replay, regionPath, until string) {
 	debug.SetMaxStack(256 << 20)
 	var lim syscall.Rlimit
 	lim.Cur, lim.Max = 12<<30, 12<<30
@@ -529,6 +542,11 @@ func WorkerMain(propID, tier string, idx, n, seed int, deadlineUnix int64, after
 				}
 				x := &Ctx{w: w, phaseIx: phIx, phase: ph.Name, size: size, c: c, st: st}
 				w.runOne(ph, x, c)
+				if until != "" && until == fmt.Sprintf("%d:%d:%s", phIx, size, joinInts(c.Choices())) {
+					w.emit(map[string]interface{}{"t": "done", "stats": w.stats})
+					w.flush()
+					return
+				}
 				var ok bool
 				prefix, ok = next(c.trail)
 				if !ok {
